@@ -47,9 +47,20 @@ KNOWN_PREDICATES = {}
 
 
 def _pred_rewritten(case, obs):
-    # the clause is only raised when the reported element is one of the solver's *current* (simplified) constraints and
-    # none of the added ones; re-check the second half from the observation
-    return obs.get("element") is not None and obs["element"] not in obs.get("added", [])
+    # The clause itself says: the reported element is one of the solver's *current* constraints and none of the added
+    # ones.  That is the open finding only if the current constraints can differ from the added ones because they were
+    # simplified: some step before the failing unsat_core() must be simplify() or a query that implies it
+    # (SimplifyHelperMixin: min, max, eval / batch_eval with n > 1).  Without such a step (e.g. add([false@tag]);
+    # unsat_core() answering plain false) the failure is something else and is reported.
+    k = obs.get("step")
+    if k is None:
+        return False
+    for st_ in case["history"][:k]:
+        if st_["op"] in ("simplify", "min", "max"):
+            return True
+        if st_["op"] in ("eval", "batch", "eval_to_ast") and st_.get("n", 1) > 1:
+            return True
+    return False
 
 
 KNOWN_PREDICATES = {"core_element_is_rewritten_constraint": _pred_rewritten}
